@@ -158,11 +158,16 @@ fn parse_number(pair: Pair<Rule>, pc: &mut PositionCalculator) -> Result<Positio
     debug_assert_eq!(pair.as_rule(), Rule::number);
     let pos = pc.step(&pair);
     Ok(Positioned::new(
-        pair.as_str().parse().map_err(|err| Error::Syntax {
-            message: format!("invalid number: {}", err),
-            start: pos,
-            end: None,
-        })?,
+        match pair.as_str() {
+            // the only negative IntValue that is not a negative integer; `str::parse` reads it
+            // as the float -0.0
+            "-0" => Number::from(0),
+            number => number.parse().map_err(|err| Error::Syntax {
+                message: format!("invalid number: {}", err),
+                start: pos,
+                end: None,
+            })?,
+        },
         pos,
     ))
 }
